@@ -59,6 +59,7 @@ fn strategy_json(s: &Strategy) -> Value {
         Strategy::Random => json!({"kind": "random"}),
         Strategy::Sticky(p) => json!({"kind": "sticky", "p": p}),
         Strategy::Targeted => json!({"kind": "targeted"}),
+        Strategy::StallBeforeCas(p) => json!({"kind": "stall_before_cas", "p": p}),
         Strategy::Pct { prio, change } => json!({"kind": "pct", "prio": prio, "change": change}),
     }
 }
@@ -67,6 +68,7 @@ fn strategy_from(v: &Value) -> Strategy {
     match v["kind"].as_str().unwrap_or("random") {
         "sticky" => Strategy::Sticky(v["p"].as_u64().unwrap_or(50) as u32),
         "targeted" => Strategy::Targeted,
+        "stall_before_cas" => Strategy::StallBeforeCas(v["p"].as_u64().unwrap_or(250) as u32),
         "pct" => Strategy::Pct {
             prio: v["prio"].as_array().map(|a| a.iter().map(|x| x.as_u64().unwrap_or(0) as u32).collect()).unwrap_or_default(),
             change: v["change"].as_array().map(|a| a.iter().map(|x| x.as_u64().unwrap_or(0)).collect()).unwrap_or_default(),
@@ -231,7 +233,8 @@ pub fn gen_spec(seed: u64, run: u64, fl: MtFlavour) -> MtSpec {
         }
         programs.push(prog);
     }
-    let strategy = match rng.below(10) {
+    let strategy = match rng.below(13) {
+        10..=12 => Strategy::StallBeforeCas(*rng.pick(&[100u32, 250, 500])),
         0..=1 => Strategy::Random,
         2..=4 => Strategy::Sticky(*rng.pick(&[20u32, 50, 200, 500])),
         5..=7 => {
